@@ -19,7 +19,8 @@ once, at admission" is a statement about cursors, not a constant.
 
 `net.JoinHostPort` is modelled (brackets iff the host contains a colon); `IPAddr.String()` is
 `IP.String()` when the zone is empty, else `IP.String() + "%" + zone`.
-The model follows the repaired code: a resolved address without an IP, or with a zone, is rejected.
+The model follows the repaired code: a resolved address without an IP, the unspecified address (which
+`net.Dial` replaces by the local system) and an address with a zone are rejected.
 
 The second half models the *objects*: a registration is a heap cell with a `Covert` field, the
 registry stores a **pointer** and a `Valid` flag, `ingestRegistration` of several workers runs
@@ -47,6 +48,7 @@ structure Env (Net Pat IP : Type) where
   contains : Net → IP → Bool          -- (*net.IPNet).Contains(ip), ip non-nil
   matchString : Pat → String → Bool   -- (*regexp.Regexp).MatchString(host)
   ipText : IP → String                -- net.IP.String()
+  unspecified : IP → Bool             -- net.IP.IsUnspecified(): 0.0.0.0, ::, ::ffff:0.0.0.0
 
 /-- result shape of `net.ResolveIPAddr("ip", host)` -/
 inductive Resolved (IP : Type)
@@ -101,6 +103,7 @@ def parseOrResolve (env : Env Net Pat IP) (pol : Policy Net Pat) (a : Answers) (
     | .addr none _ => ⟨"", lookup, n + 1⟩                -- no IP (empty host)
     | .addr (some ip) zone =>
       if isBlocklistedCovertAddr env pol ip then ⟨"", lookup, n + 1⟩
+      else if env.unspecified ip then ⟨"", lookup, n + 1⟩     -- 0.0.0.0 / ::  — net.Dial would dial the local system
       else if zone ≠ "" then ⟨"", lookup, n + 1⟩         -- zone: the text would not be a plain literal
       else ⟨joinHostPort (addrText env ip zone) port, lookup, n + 1⟩
 
@@ -110,11 +113,13 @@ def parseOrResolve (env : Env Net Pat IP) (pol : Policy Net Pat) (a : Answers) (
 structure DialLib (IP : Type) where
   splitHostPort : String → Option (String × String)   -- net.SplitHostPort
   parseIP : String → Option IP                        -- the literal fast path (no zone)
+  unspecified : IP → Bool                             -- IP.IsUnspecified()
 
 /-- what `net.Dial("tcp", s)` connects to -/
 inductive Dialed (IP : Type)
   | bad                                         -- the string does not split into host and port
   | literal (ip : IP) (port : String)           -- a literal: connected to as is, no resolver involved
+  | localSystem (port : String)                 -- a literal unspecified address: "the local system is assumed"
   | resolved (r : Resolved IP) (port : String)  -- a name: whatever the resolver answers *now*
 
 /-- `net.Dial`: returns what is connected to and the resolver cursor afterwards -/
@@ -123,7 +128,7 @@ def netDial (L : DialLib IP) (s : String) (rs : Resolver IP) (n : Nat) : Dialed 
   | none => (.bad, n)
   | some (host, port) =>
     match L.parseIP host with
-    | some ip => (.literal ip port, n)
+    | some ip => if L.unspecified ip then (.localSystem port, n) else (.literal ip port, n)
     | none => (.resolved (rs n) port, n + 1)
 
 /-! ## objects, the registry entry, interleaved ingest workers -/
